@@ -1168,4 +1168,99 @@ theorem productive_le_bumps {g : Graph} {ncls : Nat} (st : StaticN g ncls) (hcl 
     productiveSteps g (initState g ncls store []) steps ≤ 24 * resultBoundB g + 12 * g.workers.length :=
   productive_le_run2 st (rootsOwned_of_classesOKRB hcl) store steps ok _ (total_run_le st hcl store steps ok).1
 
+
+/-! ## the sleeps of the result wait
+
+A step that ends inside a test with a wait counter `≠ 0` is a tick of the result wait of the SAME test: the counter went from
+`wait` to `wait + 1 ≤ 10`, and the last event of the step is the sleep of 3000 hundredths (`asyncio.sleep(30)`).  Every other
+step that ends inside a test has just started it (counter 0).  So of the bound `T` of `Fair.Timed` only the duration of the
+first suspension of a test — the test's own run — is an assumption; the ticks last what the model announces, at most ten
+times per test. -/
+
+theorem contEff_wait0 {g : Graph} {w n : Nat} {ph : Phase} {dir : Dir} {sc s' : State} {ok : Bool}
+    (h : ContEff g w n ph dir sc ok s') (hw : w < sc.workers.length)
+    {n' : Nat} {ph' : Phase} {dir' : Dir} {uid' : String} {tag' wait' : Nat}
+    (hpc : (s'.wd w).pc = .test n' ph' dir' uid' tag' wait') : wait' = 0 := by
+  rcases h with ⟨_, _, e⟩ | ⟨_, ⟨a, hp⟩ | ⟨s1, a, hs⟩⟩
+  · rw [e, startTest_pc g sc n w .main dir hw] at hpc
+    cases hpc
+    rfl
+  · rw [hpc] at hp; cases hp
+  · have hl : (if ph = .pre then appendPre sc n w else sc).workers.length = sc.workers.length := by split <;> rfl
+    obtain ⟨n2, ph2, dir2, uid2, tag2, e⟩ := startFrom_pc hs (by rw [a.workersLen, hl]; exact hw)
+    rw [e] at hpc
+    cases hpc
+    rfl
+
+theorem resumeTest_tick_sleep (g : Graph) (hwf : GraphWF g) (s : State) (w n : Nat) (ph : Phase) (dir : Dir) (uid : String)
+    (tag wait : Nat) (out : Outcome) (fuel : Nat) (hf : 0 < fuel) (hw : w < s.workers.length)
+    (hpath : ∀ x ∈ (s.wd w).path, x < g.nodes.length)
+    {n' : Nat} {ph' : Phase} {dir' : Dir} {uid' : String} {tag' wait' : Nat}
+    (hpc : ((resumeTest g s w n ph dir uid tag wait out fuel).1.wd w).pc = .test n' ph' dir' uid' tag' wait')
+    (hne : wait' ≠ 0) :
+    (resumeTest g s w n ph dir uid tag wait out fuel).2.getLast? = some (Event.sleep (g.worker w).id 3000) ∧
+      n' = n ∧ tag' = tag ∧ wait' = wait + 1 ∧ wait' ≤ 10 := by
+  revert hpc
+  rw [resumeTest_eq]
+  obtain ⟨_, r2, _⟩ := reportOutcome_frame g s w n ph uid wait out
+  have hwA : w < (reportOutcome g s w n ph uid wait out).1.workers.length := by rw [r2]; exact hw
+  have hpA : ∀ x ∈ ((reportOutcome g s w n ph uid wait out).1.wd w).path, x < g.nodes.length := by
+    rw [wd_of_workers_eq r2]; exact hpath
+  generalize (reportOutcome g s w n ph uid wait out).1 = sa at hwA hpA
+  have tick : ∀ evs : List Event, (wait + 1 < 10 ∨ wait + 1 = 10) →
+      ((sa.setWd w (fun d => { d with pc := .test n ph dir uid tag (wait + 1) })).wd w).pc = .test n' ph' dir' uid' tag' wait' →
+      (evs ++ [Event.sleep (g.worker w).id 3000]).getLast? = some (Event.sleep (g.worker w).id 3000) ∧
+        n' = n ∧ tag' = tag ∧ wait' = wait + 1 ∧ wait' ≤ 10 := by
+    intro evs hlt hpc
+    rw [wd_setWd_eq sa w _ hwA] at hpc
+    cases hpc
+    exact ⟨getLast?_append_singleton _ _, rfl, rfl, rfl, by omega⟩
+  split
+  · next st0 dur _ =>
+    intro hpc
+    exfalso
+    have bB := recordResult_frame sa w n ph (if (ph == Phase.pre) = true then (s.wd w).preName else (g.node n).name) uid tag st0 dur
+    have hc := continueAfter_eff g hwf w n ph dir fuel hf _
+      (recordResult sa w n ph (if (ph == Phase.pre) = true then (s.wd w).preName else (g.node n).name) uid tag st0 dur).2
+      (reportOutcome g s w n ph uid wait out).2 (by rw [bB.workersLen]; exact hwA) (by rw [(bB.wd w).1]; exact hpA)
+    exact hne (contEff_wait0 hc (by rw [bB.workersLen]; exact hwA) hpc)
+  · split
+    · next hlt => exact tick _ (Or.inl hlt)
+    · split
+      · next heq => exact tick _ (Or.inr (by simpa using heq))
+      · intro hpc
+        exfalso
+        have hc := continueAfter_eff g hwf w n ph dir fuel hf sa false (reportOutcome g s w n ph uid wait out).2 hwA hpA
+        exact hne (contEff_wait0 hc hwA hpc)
+
+/-- **a step that ends inside a test with wait counter `≠ 0` is a tick of the result wait**: the worker was inside the same
+test with the counter one lower, the counter is at most 10, and the last event is the sleep of 30 s -/
+theorem resume_tick_sleep (g : Graph) (hwf : GraphWF g) (s : State) (w : Nat) (out : Outcome) (fuel : Nat) (hf : 0 < fuel)
+    (hw : w < s.workers.length) (hpath : ∀ x ∈ (s.wd w).path, x < g.nodes.length)
+    {n' : Nat} {ph' : Phase} {dir' : Dir} {uid' : String} {tag' wait' : Nat}
+    (hpc : ((resume g s w out fuel).1.wd w).pc = .test n' ph' dir' uid' tag' wait') (hne : wait' ≠ 0) :
+    (resume g s w out fuel).2.getLast? = some (Event.sleep (g.worker w).id 3000) ∧ wait' ≤ 10 ∧
+      ∃ ph dir uid wait, (s.wd w).pc = .test n' ph dir uid tag' wait ∧ wait' = wait + 1 := by
+  have loopCase : ((runLoop g w fuel s []).1.wd w).pc = .test n' ph' dir' uid' tag' wait' → False := by
+    intro hpc
+    rcases runLoop_eff_pos g hwf w fuel hf s [] hw hpath with ⟨_, hp⟩ | ⟨s1, a, hs⟩
+    · rw [hpc] at hp; cases hp
+    · obtain ⟨n2, ph2, dir2, uid2, tag2, e⟩ := startFrom_pc hs (by rw [a.workersLen]; exact hw)
+      rw [e] at hpc
+      cases hpc
+      exact hne rfl
+  revert hpc
+  unfold resume
+  split
+  · intro hpc; exact (loopCase hpc).elim
+  · intro hpc; exact (loopCase hpc).elim
+  · next n ph dir uid tag wait heq =>
+    intro hpc
+    obtain ⟨x1, x2, x3, x4, x5⟩ := resumeTest_tick_sleep g hwf s w n ph dir uid tag wait out fuel hf hw hpath hpc hne
+    refine ⟨x1, x5, ph, dir, uid, wait, ?_, x4⟩
+    rw [x2, x3]
+    exact heq
+  · next heq => intro hpc; rw [heq] at hpc; cases hpc
+  · next heq => intro hpc; rw [heq] at hpc; cases hpc
+
 end I2N.Trav.Fair2
